@@ -398,3 +398,39 @@ def rule_unrolled(chk, facts):
                    f"(tests at lines {sorted({b[0] for b in bad})[:4]})", where=f"rust/candid/src/de.rs:{bad[0][0] if bad else ''}",
                    ok_detail="unroll_type() (or a vouching fast-path marker) precedes every type test")
     chk.floor("deserialize_* routines that test types", n, 25)
+
+
+# ---------------------------------------------------------------------------------------------- progress
+PROGRESS = {("MapAccess::next_key_seed", "Struct"): ("expect_idx", "wire_idx"),
+            ("MapAccess::next_key_seed", "Map"): ("len",),
+            ("SeqAccess::next_element_seed", "Vector"): ("len",)}
+
+
+def rule_progress(chk, facts):
+    """every dispatch of a compound accessor consumes something: the element counter is decremented, or at least one
+    of the two field cursors advances; otherwise the visitor's loop never ends"""
+    D = get_decoder(facts)
+    names = style_names(facts)
+    found = set()
+    for k, eb, s in D.sites("seed"):
+        m = re.search(r"Compound<[^>]*> as [\w:]+::(\w+)<[^>]*>>::(\w+)$", k)
+        if not m:
+            continue
+        acc = f"{m.group(1)}::{m.group(2)}"
+        per_style = {}
+        for st in s.states:
+            sv = [x for x in st if x.startswith("S:")]
+            style = names[int(sv[0][2:])] if sv and int(sv[0][2:]) < len(names) else "?"
+            per_style.setdefault(style, []).append(st)
+        for style, sts in per_style.items():
+            need = PROGRESS.get((acc, style))
+            if not need:
+                continue
+            found.add((acc, style))
+            bad = [show(st) for st in sts if not any(f"P:{c}" in st for c in need)]
+            chk.expect(not bad, f"{acc}/{style}:progress",
+                       f"{acc} ({style}) dispatches a component on a path that neither decrements the element counter nor advances a field "
+                       f"cursor ({'/'.join(need)}): the same component would be handed out again forever",
+                       where=f"rust/candid/src/de.rs:{s.ln}", ok_detail=f"{'/'.join(need)} updated on every dispatching path")
+    for w in sorted(set(PROGRESS) - found):
+        chk.bad(f"{w[0]}/{w[1]}:progress", f"anchor moved: dispatch of {w[0]} for Style::{w[1]} not found")
